@@ -12,6 +12,7 @@ earlier forks finish.  The node can however never be reported Complete
 -/
 import Martian.Sched
 import Proofs.Sched
+import Proofs.SchedTrans
 
 namespace Props.C06
 open Martian.Sched
@@ -39,7 +40,7 @@ theorem failed_fork_sticks {g : List NodeInfo} {s : State} {e : Ev} {n f : Nat} 
   apply failed_fork_meta_fails_fork
   apply fail_sticks hr _ h
   intro he; subst he
-  have := resetOk_isJob (en_reset hen); simp [Role.isJob] at this
+  have := resetOk_isJob (reach_full hr) (en_reset hen); simp [Role.isJob] at this
 
 /-- a failed job object fails its fork unless the fork's own metadata already
 says complete/disabled or a later phase object hides it: precisely, a failed
@@ -94,6 +95,49 @@ theorem dependents_blocked {g : List NodeInfo} {s : State} {o : Obj} (hr : Reach
   · rename_i d; cases d <;> simp
   · simp [hs] at hd
 
+/-- "a node with an unfinished prenode is never complete": while some prenode `p`
+of `q` is not finished, no fork of `q` has a `_complete` and `q` is not Complete.
+Hypothesis `reopened = false`: no restart so far gave an already finished node
+new forks (`RestoreForks` does that to a Disabled mapped call whose placeholder
+fork had been disabled before its forks were known — seen on real histories; the
+node is then unfinished again for a moment although its consumers may be
+complete).  The flag is sticky, so the theorem covers every history up to the
+first such restart, in particular every uninterrupted run. -/
+theorem unfinished_prenode_blocks_completion {g : List NodeInfo} {s : State} {q p : Nat}
+    (hr : Reach g s) (hro : s.reopened = false) (hp : p ∈ s.pre q) (hnd : nodeDone s p = false) :
+    (∀ f, (s.m ⟨q, f, .fork⟩).disk.has .complete = false) ∧ nodeState s q ≠ .complete := by
+  have hall : ∀ f, (s.m ⟨q, f, .fork⟩).disk.has .complete = false := by
+    intro f
+    cases hc : (s.m ⟨q, f, .fork⟩).disk.has .complete
+    · rfl
+    · have := reach_completeInv hr hro q f hc p hp
+      rw [hnd] at this; cases this
+  refine ⟨hall, fun hc => ?_⟩
+  obtain ⟨f, hf⟩ := nodeState_complete_fork (reach_objsInv hr) hc
+  rw [hall f] at hf; cases hf
+
+/-- when a job of a node is submitted, EVERY upstream node (transitively through
+prenode edges; see `Upstream`: intermediate nodes that are Disabled do not
+propagate, exactly as in `Node.getState`) is finished -/
+theorem launch_after_upstream {g : List NodeInfo} {s : State} {o : Obj} {p : Nat}
+    (hr : Reach g s) (hro : s.reopened = false) (hen : enabled s (.launch o) = true)
+    (hu : Upstream s o.n p) : nodeDone s p = true := by
+  apply upstream_done (reach_objsInv hr) (reach_completeInv hr) hro hu
+  intro q hq
+  exact (dependents_blocked hr hen q hq).1
+
+/-- `dependents_blocked_transitive`: while an upstream node `p` of `n` has a failed
+fork, no job of `n` can be submitted. -/
+theorem dependents_blocked_transitive {g : List NodeInfo} {s : State} {o : Obj} {p f : Nat}
+    (hr : Reach g s) (hro : s.reopened = false) (hu : Upstream s o.n p) (hf : f ∈ s.forksOf p)
+    (hfail : forkState s p f = .failed) : enabled s (.launch o) = false := by
+  cases hen : enabled s (.launch o)
+  · rfl
+  · have hd := launch_after_upstream hr hro hen hu
+    have := forkState_done.mpr (nodeDone_iff.mp hd f hf)
+    rw [hfail] at this
+    rcases this with h | h <;> cases h
+
 /-- two states that agree on everything belonging to node `n` -/
 structure SameNode (n : Nat) (s s' : State) : Prop where
   phase : s.phase = s'.phase
@@ -144,5 +188,28 @@ example : (match replay (init g2) h2 with
                !enabled s (.nodestate 1 .running) && !enabled s (.launch ⟨1, 0, .chunk 0⟩) &&
                s.st ⟨0, 0, .chunk 0⟩ == some .failed
     | .error _ => false) = true := by decide
+
+/-- a chain 0 → 1 → 2 of stages; the chunk of node 0 fails -/
+def g3 : List NodeInfo :=
+  [{ kind := .stage, pre := [] }, { kind := .stage, pre := [0] }, { kind := .stage, pre := [1] }]
+
+def h3 : List Ev :=
+  [.fork 0 0, .nodestate 0 .running, .fork 1 0, .fork 2 0, .refresh,
+   .W ⟨0, 0, .split⟩ .complete, .mkchunks 0 0 1, .launch ⟨0, 0, .chunk 0⟩,
+   .joblog ⟨0, 0, .chunk 0⟩, .jobend ⟨0, 0, .chunk 0⟩ .errors, .refresh,
+   .R ⟨0, 0, .chunk 0⟩ .errors, .nodestate 0 .failed]
+
+def s3 : State := match replay (init g3) h3 with
+  | .ok s => s
+  | .error _ => init g3
+
+example : (match replay (init g3) h3 with | .ok _ => true | .error _ => false) = true := by decide
+
+/-- node 0 is upstream of node 2 (through node 1, which is waiting, not disabled),
+node 0 has a failed fork, and indeed nothing of node 2 can be launched -/
+example : s3.reopened = false := by decide
+example : Upstream s3 2 0 := .step (q := 1) (by decide) (by decide) (.direct (by decide))
+example : 0 ∈ s3.forksOf 0 ∧ forkState s3 0 0 = .failed ∧
+    enabled s3 (.launch ⟨2, 0, .chunk 0⟩) = false := by decide
 
 end Props.C06
